@@ -24,7 +24,7 @@ func init() {
 		Title: "The decoded packet does not depend on how the stream is fragmented",
 		Level: "model_checking",
 		Rule: "stateless exploration of the real ReadPacket under a scripted io.Reader: one choice point per Read call with the menu {deliver all asked, deliver k for every 1<=k<asked, (0,nil) (bounded per execution), deliver the final bytes together with io.EOF}; " +
-			"frames <= 10 bytes: the complete tree with up to 2 zero-length reads; longer frames: every execution with at most 1 (quick) / 2 (thorough) non-default answers. " +
+			"frames <= 10 bytes: the complete tree with up to 2 zero-length reads; longer frames: every execution with at most 2 non-default answers (3 for frames <= 48 bytes; thorough: 4 for frames <= 24 bytes, 3 for frames <= 100 bytes, two zero-length reads everywhere); one 70 KiB frame with 1 (thorough only). " +
 			"Every execution's result (accessor observation + String + re-encoding, or rejection) must equal the contiguous execution's. " +
 			"states = distinct (frame, reader position, answers so far) prefixes = choice points visited; transitions = Read answers executed; a trace is one complete delivery schedule, all run on the implementation; distinct_nontrivial = distinct schedules with at least one non-default answer.",
 		Assumptions: []string{
@@ -119,14 +119,20 @@ func runC07(x *core.Ctx) {
 		}
 		f := f
 		ref, _ := c07Exec(f.B, nil, 0, false)
-		bound, maxZero, stratum := 1, 1, "bounded1"
+		bound, maxZero, stratum := 2, 1, "bounded2"
 		switch {
 		case len(f.B) <= 10:
 			bound, maxZero, stratum = -1, 2, "complete<=10B"
 		case len(f.B) > 4096:
 			bound, maxZero, stratum = 1, 1, "bounded1.big"
+		case x.Thorough() && len(f.B) <= 24:
+			bound, maxZero, stratum = 4, 2, "bounded4<=24B"
+		case x.Thorough() && len(f.B) <= 100:
+			bound, maxZero, stratum = 3, 2, "bounded3<=100B"
 		case x.Thorough():
-			bound, maxZero, stratum = 2, 1, "bounded2"
+			bound, maxZero, stratum = 2, 2, "bounded2.zero2"
+		case len(f.B) <= 48:
+			bound, maxZero, stratum = 3, 1, "bounded3<=48B"
 		}
 		e := &explore.Explorer{Bound: bound}
 		e.Run = func(c *explore.Chooser) bool {
